@@ -1,4 +1,5 @@
 import Driver.Loop
 import Driver.Smb
+import Driver.SmbDialects
 
-def main : IO Unit := Driver.run (Driver.Smb.entries)
+def main : IO Unit := Driver.run (Driver.Smb.entries ++ Driver.SmbDialects.entries)
